@@ -7,6 +7,7 @@ import (
 	"math/rand/v2"
 	"os"
 	"path/filepath"
+	"slices"
 	"sort"
 	"strings"
 	"time"
@@ -46,6 +47,8 @@ func (c14) Parallel(string) int          { return 6 }
 type c14Scenario struct {
 	Old, New []int // node indexes
 	Fault    string
+	FaultOn  []int // nodes that get the fault (nil: every node, the marker makes it fire once)
+	Users    int   // extra tenants beyond the default ones
 	Synth    []int64
 	Name     string
 }
@@ -80,6 +83,14 @@ func c14Scenarios(tier string) []c14Scenario {
 			f = faults[i/len(topo)]
 		}
 		out = append(out, c14Scenario{Old: t.old, New: t.new, Fault: f, Synth: synth[i%len(synth)], Name: t.name + "/" + f})
+	}
+	// a node that stays, gives records away to a new server AND is handed records by two leaving
+	// servers in the same synchronisation; it pauses between reading its records and sending them,
+	// so that the deliveries of the others are committed in between
+	out = append(out, c14Scenario{Old: []int{0, 1, 2, 4}, New: []int{0, 3}, Fault: "records-read:0:sleep2500", FaultOn: []int{0}, Users: 14, Synth: []int64{100}, Name: "exchange-4to2/stayer-pauses-after-reading-records"})
+	if tier == "thorough" {
+		out = append(out, c14Scenario{Old: []int{0, 1, 2}, New: []int{0, 3, 4}, Fault: "records-read:0:sleep2500", FaultOn: []int{0, 1}, Users: 12, Synth: []int64{100}, Name: "exchange-3to3/two-nodes-pause-after-reading-records"})
+		out = append(out, c14Scenario{Old: []int{0, 1}, New: []int{1, 2}, Fault: "records-read:0:sleep2500", FaultOn: []int{1}, Users: 12, Synth: []int64{100}, Name: "replace-one/stayer-pauses-after-reading-records"})
 	}
 	return out
 }
@@ -163,13 +174,13 @@ func (c14) RunCase(c fw.Case, env *fw.Env) *fw.CaseResult {
 	scs := c14Scenarios(c.Tier)
 	sc := scs[c.Int("scenario", 0)%len(scs)]
 	rng := rand.New(rand.NewPCG(c.Seed, 14))
-	ports, err := httpx.FreePorts(8)
+	ports, err := httpx.FreePorts(12)
 	if err != nil {
 		res.Note("ports: %v", err)
 		res.Inconclusive++
 		return res
 	}
-	const maxNodes = 3
+	const maxNodes = 5
 	names := make([]string, maxNodes)
 	dirs := make([]string, maxNodes)
 	for i := range names {
@@ -179,7 +190,7 @@ func (c14) RunCase(c fw.Case, env *fw.Env) *fw.CaseResult {
 	plan := models.UserPlan{Name: "p", MaxCollections: 5, MaxCollectionPointCount: 100000, MaxPointSize: 1 << 16}
 	plans := map[string]models.UserPlan{"P": plan}
 	mkNode := func(i int, servers []string, faultEnv string) *httpx.ProcNode {
-		spec := httpx.NodeSpec{HTTPPort: ports[4+i], Plans: plans, Cluster: cluster.ClusterNodeConfig{
+		spec := httpx.NodeSpec{HTTPPort: ports[6+i], Plans: plans, Cluster: cluster.ClusterNodeConfig{
 			RootDir: dirs[i], RpcHost: "localhost", RpcPort: ports[i], RpcTimeout: 30, RpcRetries: 3, Servers: servers,
 			ShardManager: cluster.ShardManagerConfig{RootDir: dirs[i], ShardTimeout: 300, MaxCacheSize: -1},
 			MaxShardSize: 1 << 31, MaxShardPointCount: 25, MaxSearchLimit: 75}}
@@ -259,6 +270,36 @@ func (c14) RunCase(c fw.Case, env *fw.Env) *fw.CaseResult {
 		}
 		if len(split) > 0 {
 			res.Stat("scenarios_with_prefix_related_tenants_on_different_owners", 1)
+		}
+		if sc.Users > 0 {
+			// exchange scenarios: the stayers must both be handed records by every leaving node and
+			// give records away to a new node in the same synchronisation; placement depends on the
+			// server names (ports), so the tenants are chosen from their computed owners
+			oldS := serversOf(sc.Old)
+			ownOld := func(u string) string { return cluster.RendezvousHash(u, oldS, 1)[0] }
+			stays := map[string]bool{}
+			for _, x := range sc.Old {
+				if slices.Contains(sc.New, x) {
+					stays[names[x]] = true
+				}
+			}
+			perClass := map[string]int{}
+			for i := 0; i < 600 && len(users) < 3+sc.Users; i++ {
+				u := fmt.Sprintf("tenant%03d", i)
+				oo, on := ownOld(u), own(u)
+				class := ""
+				switch {
+				case !stays[oo] && stays[on]:
+					class = "in:" + oo + ">" + on
+				case stays[oo] && !stays[on]:
+					class = "out:" + oo
+				}
+				if class != "" && perClass[class] < 3 {
+					perClass[class]++
+					users = append(users, u)
+				}
+			}
+			res.Stat("exchange_tenant_classes", int64(len(perClass)))
 		}
 	}
 	entryOld := oldNodes[sc.Old[0]]
@@ -390,8 +431,11 @@ func (c14) RunCase(c fw.Case, env *fw.Env) *fw.CaseResult {
 	defer killAll(newNodes)
 	for _, i := range invIdx {
 		fe := ""
-		if faultNode >= 0 {
+		if faultNode >= 0 && (sc.FaultOn == nil || slices.Contains(sc.FaultOn, i)) {
 			fe = sc.Fault + ":" + marker
+			if sc.FaultOn != nil {
+				fe = sc.Fault + ":" + marker + fmt.Sprint(i) // once per listed node
+			}
 		}
 		newNodes[i] = mkNode(i, newServers, fe)
 	}
@@ -453,7 +497,7 @@ func (c14) RunCase(c fw.Case, env *fw.Env) *fw.CaseResult {
 		res.Stat("rounds", 1)
 	}
 	fired := false
-	if _, err := os.Stat(marker); err == nil {
+	if fm, _ := filepath.Glob(marker + "*"); len(fm) > 0 {
 		fired = true
 		res.Stat("faults_fired", 1)
 	}
